@@ -111,9 +111,10 @@ def ordinal_naming(chk, c, rule):
             raise AnalysisError('%s: enumerate target not recognised' % fq)
         nnames = 0
         for n in ast.walk(lp):
-            if isinstance(n, ast.Call) and isinstance(n.func, ast.Attribute) and n.func.attr == 'format' and \
-                    isinstance(n.func.value, ast.Constant) and '_{' in str(n.func.value.value) and len(n.args) == 2:
-                idx = n.args[1]
+            # canonical form of '<prefix>_{i}'.format(..) / '%s_%d' % (..): f'{prefix}_{i}' -- last field after a '_' literal
+            if isinstance(n, ast.JoinedStr) and len(n.values) >= 2 and isinstance(n.values[-1], ast.FormattedValue) and \
+                    isinstance(n.values[-2], ast.Constant) and str(n.values[-2].value).endswith('_'):
+                idx = n.values[-1].value
                 add = None
                 if isinstance(idx, ast.Name) and idx.id == counter:
                     add = 0
@@ -123,12 +124,14 @@ def ordinal_naming(chk, c, rule):
                 elif isinstance(idx, ast.BinOp) and isinstance(idx.op, ast.Add) and isinstance(idx.right, ast.Name) and \
                         idx.right.id == counter and isinstance(idx.left, ast.Constant):
                     add = idx.left.value
+                elif counter not in {x.id for x in ast.walk(idx) if isinstance(x, ast.Name)}:
+                    continue          # a name built from something else than the loop counter
                 nnames += 1
                 ok = add is not None and start + add == 1
                 chk.ob(rule, '%s: `%s`' % (fq, norm(n)[:60]), ok,
                        'the piece at position i is named with index %s + %s: encode and parse disagree on every position' % (
                            'enumerate-start %d' % start, add), '%s:%d' % (fi.module.relpath, n.lineno),
-                       key='%s|%s|%s' % (rule, fq, norm(n.func.value)))
+                       key='%s|%s|%s' % (rule, fq, ''.join(v.value if isinstance(v, ast.Constant) else '{}' for v in n.values)))
         if nnames == 0:
             raise AnalysisError('%s: no positional name construction found' % fq)
 
@@ -168,88 +171,240 @@ def encoder_order(chk, c, rule):
         any(isinstance(n, ast.UnaryOp) and isinstance(n.op, ast.Not) for n in ast.walk(rt.node)) and \
         all(norm(r.value) == rp for r in own_nodes(rt.node) if isinstance(r, ast.Return))
     chk.ob(rule, '_remove_trailing only cuts empty slots off the end', ok, '', rt.loc, key='%s|trailing' % rule)
-    # Segment.to_er7 keeps one slot per entry (empty string for a missing child)
+    # Segment.to_er7 keeps one slot per entry (empty string for a missing child): decided on the CFG -- every normal path
+    # through one iteration of the loop over _get_children() appends to the list that is joined in the return
     st = ix.func('core.Segment.to_er7')
-    ok = any(isinstance(n, ast.If) and norm(n.test) == 'child is not None' and n.orelse for n in own_nodes(st.node)) and \
-        any(isinstance(n, ast.Return) and norm(n.value) == 'separator.join(s)' for n in own_nodes(st.node))
+    ok, why = one_slot_per_child(st)
     he = ix.func('core.Segment._handle_empty_children')
-    ok = ok and any(isinstance(n, ast.Return) and isinstance(n.value, ast.Constant) and n.value.value == '' for n in own_nodes(he.node))
-    chk.ob(rule, 'Segment.to_er7 emits an empty slot for every missing position', ok, '', st.loc, key='%s|empty-slot' % rule)
+    if not any(isinstance(n, ast.Return) and isinstance(n.value, ast.Constant) and n.value.value == '' for n in own_nodes(he.node)):
+        ok, why = False, 'Segment._handle_empty_children does not return the empty string'
+    chk.ob(rule, 'Segment.to_er7 emits an empty slot for every missing position', ok, why, st.loc, key='%s|empty-slot' % rule)
+
+
+def loop_always_hits(g, loop, events):
+    """every normal path through one iteration of `loop` (entered by its 'iter' edge) passes through a node of `events`
+    before it reaches the loop head again or leaves the loop"""
+    h = g.node_of_ast.get(id(loop))
+    if h is None:
+        return False
+    body = {g.node_for(n) for n in ast.walk(loop) if n is not loop and g.node_for(n)} - {h}
+    work = [d for d, lab in g.succ[h] if lab == 'iter']
+    seen = set()
+    while work:
+        n = work.pop()
+        if n in seen or n in events:
+            continue
+        seen.add(n)
+        if n == h or n not in body:
+            return False
+        for d, lab in g.succ[n]:
+            if lab != 'exc':
+                work.append(d)
+    return True
+
+
+def one_slot_per_child(fi):
+    """-> (ok, why): the function returns <sep>.join(L) and the loop over self._get_children(..) appends to L on every path"""
+    from ..cfg import cfg_of
+    joined = None
+    for n in own_nodes(fi.node):
+        if isinstance(n, ast.Return) and isinstance(n.value, ast.Call) and isinstance(n.value.func, ast.Attribute) and \
+                n.value.func.attr == 'join' and len(n.value.args) == 1 and isinstance(n.value.args[0], ast.Name):
+            joined = n.value.args[0].id
+    if joined is None:
+        return False, 'no `return <separator>.join(<list>)` found'
+    loops = [n for n in own_nodes(fi.node) if isinstance(n, ast.For) and isinstance(n.iter, ast.Call) and
+             norm(n.iter.func) == 'self._get_children']
+    if len(loops) != 1:
+        return False, 'the loop over self._get_children(...) was not found'
+    g = cfg_of(fi)
+    events = set()
+    for n in ast.walk(loops[0]):
+        if isinstance(n, ast.Call) and isinstance(n.func, ast.Attribute) and n.func.attr in ('append', 'extend') and \
+                norm(n.func.value) == joined:
+            nid = g.node_for(n)
+            if nid:
+                events.add(nid)
+    if not events:
+        return False, 'nothing is appended to `%s` inside the loop' % joined
+    if not loop_always_hits(g, loops[0], events):
+        return False, 'an iteration can finish without appending to `%s`: the position of the following fields shifts' % joined
+    return True, ''
 
 
 def open_ended(chk, c, rule):
+    from . import pat
     ix = c.index
     chk.rule(rule, 'open-ended segments (Z-segments, last field of type varies): slots beyond the table are '
                    'range(last_allowed + 1, last_used + 1), named <SEG>_<i>; add() raises last_used to the index added')
+    LA, LU = 'self._last_allowed_child_index', 'self._last_child_index'
     gc = ix.func('core.Segment._get_children')
-    loops = [n for n in own_nodes(gc.node) if isinstance(n, ast.For)]
-    ok = False
-    for lp in loops:
-        if norm(lp.iter) in ('xrange(self._last_allowed_child_index + 1, self._last_child_index + 1)',
-                             'range(self._last_allowed_child_index + 1, self._last_child_index + 1)'):
-            i = norm(lp.target)
-            body = ' '.join(norm(s) for s in lp.body)
-            if ("'{}_{}'.format(self.name, %s)" % i) in body or ("'{0}_{1}'.format(self.name, %s)" % i) in body:
-                ok = 'children.append(self.children.indexes.get(' in body
-    chk.ob(rule, '_get_children emits one slot for each index last_allowed+1 .. last_used', ok, '', gc.loc, key='%s|range' % rule)
+    returned = {norm(r.value) for r in own_nodes(gc.node) if isinstance(r, ast.Return) and r.value is not None}
+    ok, why = False, 'no iteration over range(last_allowed + 1, last_used + 1) found'
+    iters = []
+    for n in own_nodes(gc.node):
+        if isinstance(n, ast.ListComp) and len(n.generators) == 1:
+            iters.append((n.generators[0].iter, n.generators[0].target, n.elt, n, bool(n.generators[0].ifs)))
+        if isinstance(n, ast.For):
+            apps = [x for x in ast.walk(n) if isinstance(x, ast.Call) and isinstance(x.func, ast.Attribute) and x.func.attr == 'append']
+            if len(apps) == 1 and apps[0].args:
+                iters.append((n.iter, n.target, apps[0].args[0], apps[0], False))
+    for it, tgt, elt, holder, filtered in iters:
+        if not (isinstance(it, ast.Call) and norm(it.func) in ('range', 'xrange') and len(it.args) == 2):
+            continue
+        if pat.plus_one_of(it.args[0]) != LA or pat.plus_one_of(it.args[1]) != LU:
+            why = 'the extra slots run over %s, not over range(%s + 1, %s + 1)' % (norm(it)[:70], LA, LU)
+            continue
+        i = norm(tgt)
+        e = pat.inline_locals(elt, gc.node)
+        named = [x for x in ast.walk(e) if isinstance(x, ast.JoinedStr) and pat.fshape(x) == '{}_{}' and
+                 [norm(a_) for a_ in pat.fargs(x)] == ['self.name', i]]
+        looked = isinstance(e, ast.Call) and isinstance(e.func, ast.Attribute) and e.func.attr == 'get' and \
+            norm(e.func.value).endswith('.indexes') and e.args and named and e.args[0] is named[0] and \
+            (len(e.args) == 1 or (isinstance(e.args[1], ast.Constant) and e.args[1].value is None))
+        par = getattr(holder, '_parent', None)
+        sink = norm(par.func.value) if isinstance(holder, ast.ListComp) and isinstance(par, ast.Call) and \
+            isinstance(par.func, ast.Attribute) and par.func.attr == 'extend' else \
+            (norm(holder.func.value) if isinstance(holder, ast.Call) else None)
+        if filtered:
+            why = 'the extra slots are filtered'
+        elif not looked:
+            why = 'slot i is not filled with indexes.get(<SEG>_<i>) (`%s`)' % norm(elt)[:60]
+        elif sink is None or (sink not in returned and not any(sink in r for r in returned)):
+            why = 'the slots are not added to the list that is returned'
+        else:
+            ok, why = True, ''
+    chk.ob(rule, '_get_children emits one slot for each index last_allowed+1 .. last_used', ok, why, gc.loc, key='%s|range' % rule)
+
     ad = ix.func('core.Segment.add')
-    src = [norm(n) for n in own_nodes(ad.node) if isinstance(n, (ast.Assign, ast.If))]
     objp = ad.call_params()[0]
-    idx_var = None
+    idx_forms = ('int(%s.name[4:])' % objp, "int(%s.name.split('_')[-1])" % objp, "int(%s.name.split('_')[1])" % objp,
+                 "int(%s.name.rsplit('_', 1)[1])" % objp, "int(%s.name.rsplit('_', 1)[-1])" % objp)
+    ok = False
     for n in own_nodes(ad.node):
-        if isinstance(n, ast.Assign) and isinstance(n.targets[0], ast.Name) and norm(n.value) in (
-                'int(%s.name[4:])' % objp, "int(%s.name.split('_')[-1])" % objp, "int(%s.name.split('_')[1])" % objp,
-                "int(%s.name.rsplit('_', 1)[1])" % objp):
-            idx_var = n.targets[0].id
-    ok = idx_var is not None and (any(
-        s.startswith('if %s > self._last_child_index:' % idx_var) and 'self._last_child_index = %s' % idx_var in s for s in src) or any(
-        s in ('self._last_child_index = max(self._last_child_index, %s)' % idx_var,
-              'self._last_child_index = max(%s, self._last_child_index)' % idx_var) for s in src))
+        if not (isinstance(n, ast.Assign) and any(norm(t) == LU for t in n.targets)):
+            continue
+        v = pat.inline_locals(n.value, ad.node)
+        # max(last_used, idx)
+        if isinstance(v, ast.Call) and norm(v.func) == 'max' and len(v.args) == 2 and \
+                sorted(norm(a_) for a_ in v.args)[0] in idx_forms + (LU,) and {norm(a_) for a_ in v.args} & set(idx_forms) and \
+                LU in {norm(a_) for a_ in v.args}:
+            ok = True
+        # if idx > last_used: last_used = idx
+        if norm(v) in idx_forms:
+            p_ = n
+            while getattr(p_, '_parent', None) is not None and p_ is not ad.node:
+                par = p_._parent
+                if isinstance(par, ast.If) and p_ in par.body:
+                    for t in pat.conjuncts(par.test):
+                        t2 = pat.inline_locals(t, ad.node)
+                        if isinstance(t2, ast.Compare) and len(t2.ops) == 1:
+                            l_, r_ = norm(t2.left), norm(t2.comparators[0])
+                            if (isinstance(t2.ops[0], ast.Gt) and l_ in idx_forms and r_ == LU) or \
+                                    (isinstance(t2.ops[0], ast.Lt) and r_ in idx_forms and l_ == LU):
+                                ok = True
+                p_ = par
     chk.ob(rule, 'add() raises last_used to the suffix of the added field iff greater', ok, '', ad.loc, key='%s|add' % rule)
+
     ini = ix.func('core.Segment.__init__')
-    src = {norm(n) for n in own_nodes(ini.node) if isinstance(n, ast.Assign)}
-    ok = "self._last_allowed_child_index = int(last_field_structure['name'][4:])" in src and \
-        'self._last_child_index = self._last_allowed_child_index' in src and 'last_field = self.ordered_children[-1]' in src and \
-        'self._last_allowed_child_index = 0' in src and 'self._last_child_index = 0' in src
-    chk.ob(rule, '__init__ starts both bounds at the suffix of the last table field (0 for Z-segments)', ok, '', ini.loc, key='%s|init' % rule)
-    ok = "self.allow_infinite_children = last_field_structure['ref'][2] == 'varies'" in src and 'self.allow_infinite_children = True' in src
-    chk.ob(rule, 'a segment is open-ended iff it is a Z-segment or its last field is varies', ok, '', ini.loc, key='%s|flag' % rule)
+    assigns = {}
+    for n in own_nodes(ini.node):
+        if isinstance(n, ast.Assign):
+            for t in n.targets:
+                assigns.setdefault(norm(t), []).append(norm(pat.inline_locals(n.value, ini.node)))
+    LAST = 'self.structure_by_name[self.ordered_children[-1]]'
+    la, lu = set(assigns.get(LA, [])), set(assigns.get(LU, []))
+    ok = la == {"int(%s['name'][4:])" % LAST, '0'} and lu <= {"int(%s['name'][4:])" % LAST, LA, '0'} and '0' in lu and len(lu) == 2
+    chk.ob(rule, '__init__ starts both bounds at the suffix of the last table field (0 for Z-segments)', ok,
+           'last_allowed <- %s, last_used <- %s' % (sorted(la), sorted(lu)), ini.loc, key='%s|init' % rule)
+    fl = set(assigns.get('self.allow_infinite_children', []))
+    ok = fl == {"%s['ref'][2] == 'varies'" % LAST, 'True'}
+    chk.ob(rule, 'a segment is open-ended iff it is a Z-segment or its last field is varies', ok, 'flag <- %s' % sorted(fl),
+           ini.loc, key='%s|flag' % rule)
     fcr = ix.func('core.Segment.find_child_reference')
-    ok = any(isinstance(n, ast.If) and norm(n.test) == 'self.allow_infinite_children and _valid_child_name(name, self.name)'
-             for n in own_nodes(fcr.node))
+    ok = any(isinstance(n, ast.If) and {norm(t) for t in pat.conjuncts(n.test)} ==
+             {'self.allow_infinite_children', '_valid_child_name(name, self.name)'} for n in own_nodes(fcr.node))
     chk.ob(rule, 'fields beyond the table are accepted only when named <SEG>_<n>', ok, '', fcr.loc, key='%s|names' % rule)
 
 
 def msh_pairing(chk, c, rule):
+    from . import pat
     ix = c.index
     chk.rule(rule, 'MSH-1/MSH-2: the parser inserts an MSH_1 field holding the field separator and does not split MSH_2 on the '
                    'repetition separator; the encoder removes slot 1 again and emits MSH-1/MSH-2 raw; both strip 3 characters for MSH')
     pf = ix.func('parser.parse_fields')
-    ok1 = any(isinstance(n, ast.If) and norm(n.test) in ("name == 'MSH_1'",) and
-              any('parse_field(field_sep' in norm(b) for b in n.body) for n in own_nodes(pf.node))
-    chk.ob(rule, 'parse_fields inserts MSH_1 = field separator', ok1, '', pf.loc, key='%s|insert' % rule)
+    ecp = 'encoding_chars'
+    fsep = pat.vars_assigned_from(pf.node, ("%s['FIELD']" % ecp, "%s.get('FIELD')" % ecp)) | {"%s['FIELD']" % ecp}
+    rsep = pat.vars_assigned_from(pf.node, ("%s['REPETITION']" % ecp, "%s.get('REPETITION')" % ecp)) | {"%s['REPETITION']" % ecp}
+    # (a) a branch that holds exactly for MSH_1 hands the field separator itself to parse_field
+    ok1 = False
+    for _, blk in pat.blocks_when(pf.node, pat.is_member_test(consts=['MSH_1'], exact=True)):
+        for call in pat.calls_in(blk, name='parse_field'):
+            if call.args and norm(call.args[0]) in fsep:
+                ok1 = True
+    chk.ob(rule, 'parse_fields inserts MSH_1 = field separator', ok1,
+           'no branch for the name MSH_1 passes the field separator to parse_field', pf.loc, key='%s|insert' % rule)
+    # (b) the branch for MSH_2 parses the piece unsplit
     ok2 = False
-    for n in own_nodes(pf.node):
-        if isinstance(n, ast.If) and norm(n.test) in ("name == 'MSH_2'", "name in ('MSH_2',)", "name in ['MSH_2']", "'MSH_2' == name"):
-            ok2 = not any(isinstance(x, ast.Call) and isinstance(x.func, ast.Attribute) and x.func.attr == 'split'
-                          for b in n.body for x in ast.walk(b)) and any('parse_field(field,' in norm(b) for b in n.body)
-    chk.ob(rule, 'parse_fields does not split MSH_2 on the repetition separator', ok2, '', pf.loc, key='%s|msh2' % rule)
+    why2 = 'no branch for the name MSH_2'
+    for _, blk in pat.blocks_when(pf.node, pat.is_member_test(consts=['MSH_2'], exact=True),
+                                  pat.is_nonmember_test(consts=['MSH_2'])):
+        splits = [x for x in pat.calls_in(blk, attr='split') if x.args and norm(x.args[0]) in rsep]
+        passes = [x for x in pat.calls_in(blk, name='parse_field') if x.args and isinstance(x.args[0], ast.Name)]
+        ok2 = not splits and bool(passes)
+        why2 = 'the MSH_2 branch splits on the repetition separator' if splits else 'the MSH_2 branch does not parse the piece'
+    chk.ob(rule, 'parse_fields does not split MSH_2 on the repetition separator', ok2, '' if ok2 else why2, pf.loc,
+           key='%s|msh2' % rule)
+    # (c) the encoder drops slot 1 of the list it joins, for MSH only
     st = ix.func('core.Segment.to_er7')
-    ok3 = any(isinstance(n, ast.If) and norm(n.test) == "self.name == 'MSH' and len(s) > 1" and
-              any(norm(b) == 's.pop(1)' for b in n.body) for n in own_nodes(st.node))
-    chk.ob(rule, 'Segment.to_er7 removes the MSH_1 slot', ok3, '', st.loc, key='%s|pop' % rule)
+    joined = None
+    for n in own_nodes(st.node):
+        if isinstance(n, ast.Return) and isinstance(n.value, ast.Call) and isinstance(n.value.func, ast.Attribute) and \
+                n.value.func.attr == 'join' and len(n.value.args) == 1 and isinstance(n.value.args[0], ast.Name):
+            joined = n.value.args[0].id
+    ok3 = False
+    for _, blk in pat.blocks_when(st.node, pat.is_member_test(var='self.name', consts=['MSH'], exact=True)):
+        ok3 = ok3 or any(norm(b) in ('%s.pop(1)' % joined, 'del %s[1]' % joined) for b in blk)
+    chk.ob(rule, 'Segment.to_er7 removes the MSH_1 slot', ok3, 'no `<joined list>.pop(1)` under `self.name == \'MSH\'`',
+           st.loc, key='%s|pop' % rule)
+    # (d) Field.to_er7 has a raw branch for each of the two delimiter fields
     ft = ix.func('core.Field.to_er7')
-    ok4 = any(isinstance(n, ast.If) and norm(n.test) == "self.is_named('MSH_1')" for n in own_nodes(ft.node)) and \
-        any(isinstance(n, ast.If) and norm(n.test) == "self.is_named('MSH_2')" for n in own_nodes(ft.node))
-    chk.ob(rule, 'Field.to_er7 emits MSH-1/MSH-2 raw (unescaped)', ok4, '', ft.loc, key='%s|raw' % rule)
+    named = set()
+    for n in ast.walk(ft.node):
+        if isinstance(n, ast.Call) and norm(n.func) == 'self.is_named' and n.args and isinstance(n.args[0], ast.Constant):
+            named.add(n.args[0].value)
+        m = pat.membership(n) if isinstance(n, ast.Compare) else None
+        if m and m[0] == 'self.name':
+            named |= set(m[1])
+    ok4 = {'MSH_1', 'MSH_2'} <= named
+    chk.ob(rule, 'Field.to_er7 emits MSH-1/MSH-2 raw (unescaped)', ok4, 'tests for %s only' % sorted(named), ft.loc,
+           key='%s|raw' % rule)
+    # (e) both splitters cut 3 characters off an MSH line and 4 off any other
     for fq in ('parser.parse_segment', 'core.Segment.parse_children'):
         fi = ix.func(fq)
-        ok = any(isinstance(n, ast.Assign) and norm(n.value) == "text[4:] if segment_name != 'MSH' else text[3:]"
-                 for n in own_nodes(fi.node))
+        ok = False
+        for n in own_nodes(fi.node):
+            ch = pat.cond_choice(n.value) if isinstance(n, ast.Assign) else None
+            if ch is None:
+                continue
+            t, a_, b_ = ch
+            m = pat.membership(t)
+            if m and m[1] == frozenset(['MSH']) and isinstance(a_, ast.Subscript) and isinstance(b_, ast.Subscript) and \
+                    norm(a_.value) == norm(b_.value) and norm(a_.slice) == '3:' and norm(b_.slice) == '4:':
+                ok = True
         chk.ob(rule, '%s strips 3 characters for MSH and 4 otherwise' % fq, ok, '', fi.loc, key='%s|strip|%s' % (rule, fq))
+    # (f) parse_field keeps the two delimiter fields as one unsplit ST value
     pfd = ix.func('parser.parse_field')
-    ok = any(isinstance(n, ast.If) and norm(n.test) == "name in ('MSH_1', 'MSH_2')" and
-             any('SubComponent(datatype=\'ST\', value=text' in norm(b) for b in n.body) for n in own_nodes(pfd.node))
+    ok = False
+    for _, blk in pat.blocks_when(pfd.node, pat.is_member_test(consts=['MSH_1', 'MSH_2'], exact=True),
+                                  pat.is_nonmember_test(consts=['MSH_1', 'MSH_2'])):
+        textp = pfd.call_params()[0]
+        for call in pat.calls_in(blk, name='SubComponent'):
+            kw = {k.arg: k.value for k in call.keywords}
+            if 'value' in kw and norm(kw['value']) == textp and 'datatype' in kw and isinstance(kw['datatype'], ast.Constant) \
+                    and kw['datatype'].value == 'ST':
+                ok = True
+        ok = ok and not pat.calls_in(blk, attr='split') and not pat.calls_in(blk, name='parse_components')
     chk.ob(rule, 'parse_field stores MSH-1/MSH-2 as one unsplit ST value', ok, '', pfd.loc, key='%s|unsplit' % rule)
 
 
@@ -257,7 +412,7 @@ def verbatim_flow(chk, c, rule):
     ix = c.index
     chk.rule(rule, 'leaf text flows from the message text to SubComponent(value=...) through split / slicing of the segment name / '
                    'strip of a whole segment line only: no piece is stripped, case-folded or rewritten on the way down')
-    from .c03 import piece_loops
+    from .c03 import piece_vars
     chain = [('parser.parse_segments', 'parse_segment', ('{p}.strip()', '{p}')),
              ('parser.parse_fields', 'parse_field', ('{p}',)),
              ('parser.parse_components', 'parse_component', ('{p}',)),
@@ -265,27 +420,37 @@ def verbatim_flow(chk, c, rule):
     nedges = 0
     for fq, callee, forms in chain:
         fi = ix.func(fq)
-        loops = piece_loops(fi)
-        pieces = {p for _, p in loops}
+        pieces = piece_vars(fi)
         calls = [n for n in own_nodes(fi.node) if isinstance(n, ast.Call) and norm(n.func) == callee]
         if not calls:
             raise AnalysisError('%s no longer calls %s' % (fq, callee))
         for cl in calls:
             a0 = norm(cl.args[0]) if cl.args else None
-            okforms = {f.format(p=p) for p in pieces for f in forms} | ({'field_sep'} if callee == 'parse_field' else set())
+            okforms = {f.format(p=p) for p in pieces for f in forms}
+            if callee == 'parse_field':     # MSH_1: the field separator itself is the value (rule M)
+                from . import pat
+                okforms |= pat.vars_assigned_from(fi.node, ("encoding_chars['FIELD']", "encoding_chars.get('FIELD')"))
             nedges += 1
             chk.ob(rule, '%s hands `%s` to %s' % (fq, a0, callee), a0 in okforms,
                    'the piece is transformed (`%s`) before it is parsed: the encoded text can differ from the input' % a0,
                    '%s:%d' % (fi.module.relpath, cl.lineno), key='%s|%s|%s' % (rule, fq, a0))
     # the text parameter is not rewritten inside the single-element parsers
-    allowed = {'parser.parse_segment': {"text[4:] if segment_name != 'MSH' else text[3:]"},
-               'parser.parse_fields': {"text.strip('\\r')"},
-               'parser.parse_field': set(), 'parser.parse_component': set(), 'parser.parse_subcomponent': set(),
-               'parser.parse_components': set(), 'parser.parse_subcomponents': set()}
-    for fq, ok_forms in sorted(allowed.items()):
+    # the text parameter is not rewritten inside the parsers, except: cutting the segment name off (a constant slice, or a
+    # conditional choice between two constant slices: rule M decides which) and parse_fields stripping segment terminators
+    def harmless(v, fq):
+        if isinstance(v, ast.Subscript) and norm(v.value) == 'text' and isinstance(v.slice, ast.Slice) and v.slice.step is None and \
+                v.slice.upper is None and isinstance(v.slice.lower, ast.Constant):
+            return fq == 'parser.parse_segment'
+        if isinstance(v, ast.IfExp):
+            return harmless(v.body, fq) and harmless(v.orelse, fq)
+        if fq == 'parser.parse_fields' and norm(v) in ("text.strip('\\r')", "text.rstrip('\\r')"):
+            return True
+        return False
+    for fq in ('parser.parse_segment', 'parser.parse_fields', 'parser.parse_field', 'parser.parse_component',
+               'parser.parse_subcomponent', 'parser.parse_components', 'parser.parse_subcomponents'):
         fi = ix.func(fq)
-        rew = [norm(n.value) for n in own_nodes(fi.node) if isinstance(n, ast.Assign) and norm(n.targets[0]) == 'text']
-        bad = [r for r in rew if r not in ok_forms]
+        rew = [n.value for n in own_nodes(fi.node) if isinstance(n, ast.Assign) and any(norm(t) == 'text' for t in n.targets)]
+        bad = [norm(r) for r in rew if not harmless(r, fq)]
         nedges += 1
         chk.ob(rule, '%s does not rewrite its text' % fq, not bad, 'text is reassigned: %s' % bad, fi.loc, key='%s|%s|text' % (rule, fq))
     for fq, arg in (('parser.parse_field', 'parse_components'), ('parser.parse_component', 'parse_subcomponents'),
